@@ -5,6 +5,8 @@ import (
 	"os"
 	"reflect"
 
+	inhouse "verif/harness/cmd/mvh/inhouse/common"
+
 	"github.com/bluenviron/gomavlib/v3/pkg/dialect"
 	"github.com/bluenviron/gomavlib/v3/pkg/message"
 )
@@ -13,7 +15,7 @@ func init() { cmds["defs"] = cmdDefs }
 
 // allProtos: every distinct shipped message struct, then the user structs (stable order = def index - 1).
 func allProtos() []message.Message {
-	return append(distinctMessages(), userMessages...)
+	return append(append(distinctMessages(), userMessages...), inhouse.Good...)
 }
 
 func defIndex(protos []message.Message) map[reflect.Type]int {
